@@ -31,9 +31,11 @@ def read_lammpslog(filename) -> [pd.DataFrame]:
         if data[-1].split()[0].isnumeric():  # incomplete log file
             end.append(len(data) - 2)
 
-    start = np.array(start)
+    # a trailing section cut right after its header (or after one line) has no
+    # usable rows: keep the complete sections instead of failing on it
+    start = np.array(start[: len(end)])
     end = np.array(end)
-    linenum = end - start - 1
+    linenum = np.maximum(end - start - 1, 0)
     logger.info(f"Section Number: {len(linenum)} \t Line Numbers: {str(linenum)}")
     del data
 
